@@ -387,7 +387,7 @@ def unit_kin(tname, batch):
     arrs = host.arrays_of(d2)
     symM = {n: getattr(m2, n) for n in MODEL_FLOATS}
     symD = {n: arrs[n] for n in ("qpos", "mocap_pos", "mocap_quat")}
-    with host.HostRun(mode="exec", interp_kw={"float_uf": True, "summaries": L.summaries()}) as hr:
+    with sl.hostrun(mode="exec", interp_kw={"float_uf": True, "summaries": L.summaries()}) as hr:
       smooth.kinematics(m2, d2)
     for e in hr.events:
       if e.kind == "launch":
@@ -454,7 +454,7 @@ def unit_compos(tname):
       if kernel.key.endswith("_cinert") or kernel.key.endswith("_cdof"):
         return "skip"
 
-    with host.HostRun(mode="exec", interp_kw={"float_uf": True}, on_launch=on_launch) as hr:
+    with sl.hostrun(mode="exec", interp_kw={"float_uf": True}, on_launch=on_launch) as hr:
       smooth.com_pos(m2, d2)
     for e in hr.events:
       if e.kind == "launch":
@@ -669,7 +669,7 @@ def unit_camlight(ctx):
   arrs = host.arrays_of(d2)
   symM = {n: getattr(m2, n) for n in CAM_FLOATS + CAM_INTS}
   symD = {n: arrs[n] for n in ("xpos", "xquat", "subtree_com")}
-  with host.HostRun(mode="exec", interp_kw={"float_uf": True, "summaries": L.summaries()}) as hr:
+  with sl.hostrun(mode="exec", interp_kw={"float_uf": True, "summaries": L.summaries()}) as hr:
     smooth.camlight(m2, d2)
   for e in hr.events:
     if e.kind == "launch":
@@ -724,7 +724,7 @@ def unit_tendon(ctx):
   m2 = sl.sym_fields(m, "m.", ["wrap_prm"])
   d2 = host.shim_dataclass(d, "d.")
   arrs = host.arrays_of(d2)
-  with host.HostRun(mode="exec") as hr:
+  with sl.hostrun(mode="exec") as hr:
     smooth.tendon(m2, d2)
   for e in hr.events:
     if e.kind == "launch":
